@@ -15,6 +15,30 @@ CLAIMED = {
              note="Trusted: Coq kernel/vm_compute; hand-written model coq/model/Flag.v tied by the correspondence run; leaves are scalars or 1-d arrays of one common shape; lax/jnp error behaviour is modelled as None. All theorems closed under the global context.",
              ref="5/C20"),
 }
+
+BG_NOTE = ("Trusted: Coq kernel/vm_compute; the hand-written model coq/model/GFI.v (+GFIEdit.v) is tied to /repo only by the B-gfi correspondence run "
+           "(harness/gfi.py, gfi_run.py, bgfi.py: program realiser, canonicaliser, Coq printers); integer-exact probe distributions stand for arbitrary densities "
+           "(float32 is exact on the integers they produce); choice maps are modelled observationally (finite map address -> leaf value, masked leaves kept under a false flag); "
+           "Python-bool mask flags, zero-length vector combinators under assess, and switch edits that change the index are outside the modelled region (known findings K16 K17 K19). "
+           "All theorems closed under the global context.")
+CLAIMED.update({
+ "C01": dict(engine="B-gfi", technique="Coq proof (mutual induction over programs) on a hand-written Gallina model of the GFI; vm_compute correspondence on programs x histories",
+             text="Theorems (coq/props/C01.v): for every program of the grammar (distributions, static language, vmap, scan, switch, mask, dimap and what is derived from them), every key, arguments, constraint and Update/Regenerate request, the trace returned by simulate, importance and edit is well formed (wft) and assess on its own choices and arguments returns exactly its score and return value. Tie: ~110 (quick) / 1200 (thorough) typed random programs, each with simulate, assess, 3 projections, 2 importance runs, 2 chained edits with their backward requests, every observation compared with the model inside Coq; direct oracle = assess(trace.get_choices(), trace.get_args()) on the implementation.",
+             note=BG_NOTE + " Side conditions of the theorems: static-body addresses have distinct first components (wfg) and every call at a static address records a choice (sites_live); StaticRequest/EmptyRequest/IndexRequest edits are covered by correspondence and oracle only.", ref="5/C01"),
+ "C02": dict(engine="B-gfi", technique="Coq proof relating the model's assess to a reference semantics listing the program's random choices; vm_compute correspondence",
+             text="Theorems (coq/props/C02.v): assess g c a equals the sum of the log-densities of exactly the random choices the reference semantics `ref` (the program text run over the choice values: Python loop for scan, branches[clamp idx] for switch, `if flag` for mask) lists, with the same return value and the same errors; every simulated trace's score is that sum; a masked-off call contributes no term. Tie: B-gfi engine; the probes' coefficients are distinct primes so a dropped, doubled or mis-scaled term changes the integer score; direct oracle = an independent Python evaluator of the program AST over the trace's observed choices.",
+             note=BG_NOTE, ref="5/C02"),
+ "C03": dict(engine="B-gfi", technique="Coq proof (mutual induction) of the importance-weight formula on the GFI model; vm_compute correspondence",
+             text="Theorems (coq/props/C03.v): for every program, key, constraint and arguments, importance returns weight = sum of the log-densities of exactly the random choices whose address carries a valid (unmasked or mask-true) constraint value, the trace agrees with the constraint there, an empty constraint gives 0 and a constraint fixing every choice gives the score. Tie: B-gfi engine with partial/full/empty/masked/foreign constraints under vmap indices, scan steps, switch branches and masks; direct oracle recomputes the weight from the program AST.",
+             note=BG_NOTE, ref="5/C03"),
+ "C10": dict(engine="B-gfi", technique="Coq proof of project = sum over selected choices, using the selection algebra regenerated from choice_map.py; vm_compute correspondence",
+             text="Theorems (coq/props/C10.v): for every well-formed trace (those simulate/importance/edit return) and every selection, project returns the sum of the log-densities of the random choices whose static address is selected (index levels transparent); project(all) = score, project(none) = 0, project(S) + project(~S) = score. Mask.project raises NotImplementedError in the source and in the model. Tie: B-gfi engine with 3 random selections (wildcards, complements, and/or) per program; direct oracle recomputes from the AST.",
+             note=BG_NOTE, ref="5/C10"),
+})
+
+import glob, re
+for _f in sorted(glob.glob(os.path.join(os.path.dirname(os.path.abspath(__file__)), 'notes', 'manifest_*.json'))):
+    CLAIMED.update(json.load(open(_f)))
 ALL = ["C%02d" % i for i in range(1, 39)]
 NA_REASON = "not yet covered by a theorem and tie in this round's development (see DESIGN.md section 7); no other technique is substituted"
 m = {
